@@ -34,8 +34,12 @@ type c12Entry struct {
 // c12Data: file content of length min..max: symbolic bytes (param symdata=1) or fixed distinct bytes.
 var c12Next byte
 
+// c12ForceConcrete: an OCI-layout store names blob files by digest; with symbolic content the file
+// name itself would be symbolic, so paths through the OCI intermediate store use concrete content.
+var c12ForceConcrete bool
+
 func c12Data(min, max int) []byte {
-	if verifrt.Param("symdata", 0) != 0 {
+	if verifrt.Param("symdata", 0) != 0 && !c12ForceConcrete {
 		return verifrt.Bytes(min, max)
 	}
 	n := min + verifrt.Choice(max-min+1)
@@ -161,7 +165,11 @@ func c12Keys(m map[string]string) []string {
 func VerifC12RoundTrip() {
 	ctx := context.Background()
 	K := verifrt.Param("K", 2)
+	useOCI := verifrt.Param("oci", 0) != 0 && verifrt.Bool()
+	c12ForceConcrete = useOCI
+	c12Next = 0
 	tree := c12Tree(K)
+	c12ForceConcrete = false
 	srcRoot := verifrt.TempDir()
 	dstRoot := verifrt.TempDir()
 	c12Build(filepath.Join(srcRoot, "d"), tree, time.Unix(1_600_000_000, 0))
@@ -193,7 +201,7 @@ func VerifC12RoundTrip() {
 		panic(err)
 	}
 	var mid Target
-	if verifrt.Param("oci", 0) != 0 && verifrt.Bool() {
+	if useOCI {
 		o, err := oci.New(verifrt.TempDir())
 		if err != nil {
 			panic(err)
